@@ -70,13 +70,17 @@ def gen_key(rnd, alpha, stock):
         return rnd.choice(stock)
     if k < 0.63:
         return ""
+    if k < 0.645:
+        return "".join(rnd.choice(alpha) for _ in range(rnd.choice([255, 256, 257, 300])))      # a very long key
     return "".join(rnd.choice(alpha) for _ in range(rnd.randint(1, 7)))
 
 
 def gen_history(rnd, tier):
     alpha = gen_alphabet(rnd)
     n = rnd.choice([3, 8, 20, 40]) if tier == "quick" else rnd.choice([5, 20, 40, 80])
-    outside = [c for c in "XYZ漢字ー" if c not in alpha]
+    # characters outside the alphabet, among them the katakana / other-case / voiced neighbours of characters that ARE in it
+    near = [chr(ord(c) + 0x60) for c in alpha if 0x3041 <= ord(c) <= 0x3096] + [c.upper() for c in alpha if c.islower()] + [chr(ord(c) + 1) for c in alpha[:5]]
+    outside = [c for c in list("XYZ漢字ー") + near if c not in alpha]
     ops, keys = [], []
     for _ in range(n):
         r = rnd.random()
@@ -102,6 +106,11 @@ def gen_history(rnd, tier):
     for o in ops:
         if "ins" in o:
             probes.add(o["ins"])
+    for k in keys[:10]:
+        if k and outside:
+            i = rnd.randrange(len(k))
+            probes.add(k[:i] + rnd.choice(outside) + k[i + 1:])       # an inserted key with one character replaced by a neighbour outside the alphabet
+            probes.add(k + rnd.choice(outside))
     return {"op": "trie_history", "alphabet": alpha, "ops": ops, "probes": sorted(probes), "dump_each": False}
 
 
